@@ -120,12 +120,44 @@ def decode_value(v, kind):
         return bytes(v) if not isinstance(v, str) else v.encode("latin-1")
     if kind == "str":
         return v
+    if kind == "obj":
+        return decode_obj(v)
     if kind == "stream":
         s = io.BytesIO(bytes(v["data"]))
         s.seek(v.get("pos", 0))
         if v.get("pos", 0) == len(v["data"]):
             s.seek(0, 2)
         return s
+    return v
+
+
+def decode_obj(v):
+    """JSON encoding of dynamically typed sample values / solver models of PyObj"""
+    if isinstance(v, dict) and "__bytes__" in v:
+        return bytes(v["__bytes__"])
+    if isinstance(v, dict) and "__float__" in v:
+        return float(v["__float__"])
+    if isinstance(v, dict) and "__dt_us__" in v:
+        import datetime
+        return datetime.datetime(1970, 1, 1, tzinfo=datetime.timezone.utc) + datetime.timedelta(microseconds=v["__dt_us__"])
+    if isinstance(v, dict) and "__td_us__" in v:
+        import datetime
+        return datetime.timedelta(microseconds=v["__td_us__"])
+    if isinstance(v, dict) and "ctor" in v:          # z3 model of PyObj
+        c, a = v["ctor"], v["args"]
+        if c == "PNone":
+            return None
+        if c in ("PInt", "PBool", "PStr"):
+            return a[0]
+        if c == "PBytes":
+            return bytes(a[0])
+        if c == "PFloat":
+            return [0.0, 1.5, -2.25, float("inf"), float("nan"), 3.0e38, 5e-324][a[0] % 7] if isinstance(a[0], int) else 0.0
+        if c == "PDatetime":
+            return decode_obj({"__dt_us__": a[0]})
+        if c == "PTimedelta":
+            return decode_obj({"__td_us__": a[0]})
+        raise ValueError(f"model value {c} has no native counterpart")
     return v
 
 
